@@ -82,12 +82,10 @@ func c12Boundaries(fd protoreflect.FieldDescriptor, top bool) []c12LV {
 			}
 			out = append(out, b)
 		}
-		if top {
-			// 3- to 4-byte length prefix; 2 MiB per case, so the quick tier takes one side only
-			if ev.Thorough() {
-				out = append(out, c12LV{"len2097151", C12Val{S: "z", R: 2097151}})
-			}
-			out = append(out, c12LV{"len2097152", C12Val{S: "z", R: 2097152}})
+		if top && ev.Thorough() {
+			// 3- to 4-byte length prefix, exact boundary (the quick tier reaches 4-byte prefixes
+			// through c12HugeSweep, at sizes with other bits set)
+			out = append(out, c12LV{"len2097151", C12Val{S: "z", R: 2097151}}, c12LV{"len2097152", C12Val{S: "z", R: 2097152}})
 		}
 		// values that look like an encoded message / a textual encoding
 		c12EncInit()
@@ -829,6 +827,11 @@ func genC12(t *rapid.T) C12Case {
 		c.Origin = "random-hist-indep"
 		c.Hist = c12GenHist(t, ty, &c.Msg, g, false)
 	}
+	// rarely (each such case costs tens of milliseconds) one place of the message is inflated
+	// to a multi-MiB encoding: four-byte length prefixes at sizes that are not powers of two
+	if c12Gen8.Draw(t, "huge?") == 7 && c12Gen8.Draw(t, "huge??") == 7 && rapid.IntRange(0, 3).Draw(t, "huge???") == 3 && len(c.Hist) == 0 {
+		c12MakeHuge(t, ty.md, &c.Msg, 0)
+	}
 	// now and then one or two FAILING decodes (an encoding of the value corrupted inside a
 	// nested field) precede the valid decodes of the oracle
 	if c12Gen8.Draw(t, "corrupt?") >= 6 {
@@ -864,12 +867,15 @@ func runC12Counted(c C12Case) ev.Outcome {
 func c12TuneGC() { debug.SetGCPercent(1600) }
 
 func TestProp_C12(t *testing.T) {
+	// the random search and the sweep (TestExh_C12, same process in shard 0) are independent
+	// and single-threaded: run side by side. All harness state they share is behind mutexes.
+	t.Parallel()
 	c12TuneGC()
-	ev.Get("C12").NoJournal()
+	c12NoJournal()
 	c12SelfCheck(t)
 	ev.Run(t, "C12", genC12, runC12Counted)
-	if c12MorphMismatch > 0 {
-		t.Errorf("harness: %d history case(s) in which the in-place modification did not produce the named value (not judged)", c12MorphMismatch)
+	if n := c12MorphMismatches(); n > 0 {
+		t.Errorf("harness: %d history case(s) in which the in-place modification did not produce the named value (not judged)", n)
 	}
 	if t.Failed() || os.Getenv("VERIF_REPLAY") != "" {
 		return
@@ -894,9 +900,10 @@ func TestProp_C12(t *testing.T) {
 // boundary value of its kind / shape, sub-messages one more level down; plus empty, fully
 // populated and all-empty messages.
 func TestExh_C12(t *testing.T) {
+	t.Parallel()
 	c12TuneGC()
 	r := ev.Get("C12")
-	r.NoJournal()
+	c12NoJournal()
 	defer r.Flush()
 	c12SelfCheck(t)
 	if os.Getenv("VERIF_REPLAY") != "" {
@@ -940,8 +947,12 @@ func TestExh_C12(t *testing.T) {
 	n1 := n
 	c12CorruptSweep(ev.Pick(6, 12), run)
 	r.SetExtra("sweep_corrupt_cases", n-n1)
-	if c12MorphMismatch > 0 {
-		t.Errorf("harness: %d history case(s) in which the in-place modification did not produce the named value (not judged)", c12MorphMismatch)
+	n2 := n
+	sizes, both := c12HugeSweepSizes()
+	c12HugeSweep(sizes, both, run)
+	r.SetExtra("sweep_huge_cases", n-n2)
+	if n := c12MorphMismatches(); n > 0 {
+		t.Errorf("harness: %d history case(s) in which the in-place modification did not produce the named value (not judged)", n)
 	}
 	if failed > 0 {
 		r.AddExtra("sweep_failures", failed)
@@ -964,3 +975,15 @@ func TestExh_C12(t *testing.T) {
 		t.Fatalf("C12: %d of %d sweep cases failed; smallest: %s: %s", failed, n, minRaw, minOut.Fail)
 	}
 }
+
+func c12MorphMismatches() int {
+	c12CountMu.Lock()
+	defer c12CountMu.Unlock()
+	return c12MorphMismatch
+}
+
+var c12NoJournalOnce sync.Once
+
+// c12NoJournal: pure functions cannot crash the process outside the calling goroutine; set
+// once (the recorder's switch is not synchronised and both tests run in parallel).
+func c12NoJournal() { c12NoJournalOnce.Do(func() { ev.Get("C12").NoJournal() }) }
